@@ -92,7 +92,8 @@ def execute(case, sched: Sched):
                             fired(node, m)
 
                     log("create", node, parent=parent)
-                    cm = ctx.scope(f"n{tid}_{me['pos']}", completion=cb)
+                    extra = {"trace_id": step["trace"]} if step.get("trace") else {}
+                    cm = ctx.scope(f"n{tid}_{me['pos']}", completion=cb, **extra)
                     if step["mode"] == "async":
                         await cm.__aenter__()
                     else:
@@ -306,7 +307,8 @@ def strategy(tier):
     def chain(draw):
         """grandparent -> parent -> child in an outliving task: the ancestors are left while the descendant is inside"""
         def enter():
-            return {"s": "enter", "mode": draw(mode), "completion": draw(comp)}
+            # an explicit trace id (own or different from the parent's) must not change the completion tree
+            return {"s": "enter", "mode": draw(mode), "completion": draw(comp), "trace": draw(st.sampled_from([None, None, "t1", "t2"]))}
 
         depth = draw(st.integers(1, 3))
         root = [enter() for _ in range(depth)]
@@ -342,7 +344,8 @@ def strategy(tier):
                     kinds += ["exit", "exit"]
                 k = draw(st.sampled_from(kinds))
                 if k == "enter":
-                    steps.append({"s": "enter", "mode": draw(st.sampled_from(["async", "sync"])), "completion": draw(st.sampled_from(["sync", "sync", "async"]))})
+                    steps.append({"s": "enter", "mode": draw(st.sampled_from(["async", "sync"])), "completion": draw(st.sampled_from(["sync", "sync", "async"])),
+                                  "trace": draw(st.sampled_from([None, None, "t1", "t2"]))})
                     depth += 1
                     budget_nodes -= 1
                 elif k == "exit":
